@@ -393,8 +393,7 @@ package task
 //@   site context.WithCancelCause#1 ghost runCtx := result.0
 // The outcome is published through the cancellation cause of the registered context. GUARANTEE of the registering
 // caller: "succeeded" is published only for an execution that returned nil, a failure is published as itself.
-//@   site result.1:context.WithCancelCause#1 requires arg0 == errExecutionSucceeded && execOK(h)       [C01,C06,C03,C13]
-//@   site result.1:context.WithCancelCause#2 requires arg0 == execErr && arg0 != nil                   [C01,C06,C03,C13]
+//@   site result.1:context.WithCancelCause#0 requires (arg0 == errExecutionSucceeded && execOK(h)) || (arg0 == execErr && arg0 != nil)   [C01,C06,C03,C13]
 // RELY of a later caller (what the guarantee above gives every thread): the cause it reads from the context
 // registered for h is "succeeded" only if that execution returned nil.
 //@   site context.Cause#0 requires arg0 == otherExecutionCtx                                           [C01,C06,C13]
